@@ -27,7 +27,9 @@ func init() { register(c05{}) }
 
 const (
 	c05AllocPerByte = 64
-	c05AllocSlack   = 32 << 10
+	c05AllocSlack   = 256 << 10 // a constant a decoder may spend in ONE call whatever the frame (filling a pooled 64 KiB read buffer is ordinary)
+	c05SteadySlack  = 32 << 10  // ... and what it may spend per call when the same input arrives again and again
+	c05SteadyRepeat = 24
 	c05HeapSlack    = 64 << 20
 	c05CPUBase      = 2e9 // ns
 	c05CPUPerByte   = 2e3 // ns
@@ -36,7 +38,7 @@ const (
 func (c05) ID() string    { return "C05" }
 func (c05) Level() string { return "exploration" }
 func (c05) Rule() string {
-	return "the hostile corpus of C04 (with its emphasis on truncated, emptied and inconsistent repeated sections and on headers declaring more than they deliver) is decoded by ReadPacket and UnmarshalBinary under a per-call meter: bytes allocated <= 64*L+32KiB, thread CPU time <= 2s+2us*L, no garbage collection forced by the call (runtime.MemStats.NumForcedGC, the harness's own collections subtracted), live heap growth <= 64*L+64MiB (heap poller, 500us period), every list of a returned packet <= frame length; packets returned earlier must not grow; no goroutine may be left behind by a case; a call that never returns is caught by the in-worker watchdog on CPU-time evidence. L = max(declared remaining length, bytes supplied). distinct = hash(api, input); non-trivial = the decoder was entered with a complete body"
+	return "the hostile corpus of C04 (with its emphasis on truncated, emptied and inconsistent repeated sections and on headers declaring more than they deliver) is decoded by ReadPacket and UnmarshalBinary under a per-call meter: bytes allocated <= 64*L+256KiB in any one call and <= 64*L+32KiB on average when a frame that exceeded that is decoded 24 more times (a pool being filled costs once, a trusted length prefix costs every time), thread CPU time <= 2s+2us*L, no garbage collection forced by the call (runtime.MemStats.NumForcedGC, the harness's own collections subtracted), live heap growth <= 64*L+64MiB (heap poller, 500us period), every list of a returned packet <= frame length; packets returned earlier must not grow; no goroutine may be left behind by a case; a call that never returns is caught by the in-worker watchdog on CPU-time evidence. L = max(declared remaining length, bytes supplied). distinct = hash(api, input); non-trivial = the decoder was entered with a complete body"
 }
 func (c05) Assumptions() []string {
 	return []string{
@@ -94,10 +96,31 @@ func c05Budget(c *run.Ctx, L int64) {
 	c.SetHeapBudget(mon.LiveHeap() + c05AllocPerByte*L + c05HeapSlack)
 }
 
-func c05Judge(c *run.Ctx, m *mon.Meter, api, T, kind string, L int64, in []byte) {
+func c05Judge(c *run.Ctx, m *mon.Meter, api, T, kind string, L int64, in []byte, redo func()) {
 	if lim := uint64(c05AllocPerByte*L + c05AllocSlack); m.Alloc > lim {
 		c.Violation("C05/alloc/"+api+"/"+T, fmt.Sprintf("%s allocated %d bytes for a frame of declared length %d (budget %d) (%s)", api, m.Alloc, L, lim, kind),
 			map[string]interface{}{"input": hexClip(in, 4096), "allocated": m.Alloc, "L": L})
+	} else if tight := uint64(c05AllocPerByte*L + c05SteadySlack); m.Alloc > tight && redo != nil && L <= 1<<20 {
+		// above the steady-state budget but within the one-off constant: a
+		// buffer being (re)filled into a pool costs this once, a decoder that
+		// trusts a length prefix costs it on every such frame. The same input
+		// again, c05SteadyRepeat times, metered as a whole, tells them apart.
+		first := m.Alloc
+		var sum uint64
+		var forced uint32
+		for i := 0; i < c05SteadyRepeat; i++ {
+			redo()
+			sum += m.Alloc
+			forced += m.ForcedGC
+		}
+		c.Eval(c05SteadyRepeat)
+		c.Count("steady-state-reruns", api, 1)
+		avg := sum / c05SteadyRepeat
+		if avg > tight {
+			c.Violation("C05/alloc-steady/"+api+"/"+T, fmt.Sprintf("%s allocates %d bytes on average (first call %d) every time this frame of declared length %d arrives (steady-state budget %d) (%s)", api, avg, first, L, tight, kind),
+				map[string]interface{}{"input": hexClip(in, 4096), "allocated_first": first, "allocated_average": avg, "L": L, "repeats": c05SteadyRepeat})
+		}
+		m.Alloc, m.ForcedGC = first, forced
 	}
 	if lim := int64(c05CPUBase + c05CPUPerByte*float64(L)); m.CPUNano > lim {
 		c.Violation("C05/cpu/"+api+"/"+T, fmt.Sprintf("%s used %d ns of CPU for a frame of declared length %d (budget %d) (%s)", api, m.CPUNano, L, lim, kind),
@@ -196,7 +219,11 @@ func c05Read(c *run.Ctx, m *mon.Meter, kind string, in []byte) {
 	m.Stop()
 	c.Eval(1)
 	c.Distinct(run.HashBytes(1, in), entered)
-	c05Judge(c, m, "ReadPacket", T, kind, L, in)
+	c05Judge(c, m, "ReadPacket", T, kind, L, in, func() {
+		m.Start()
+		mon.Read(bytes.NewReader(in))
+		m.Stop()
+	})
 	if res.Accepted() {
 		c05Keep(c, res.Pkt, in)
 		c05Lists(c, "ReadPacket", T, kind, res.Pkt, len(in), in)
@@ -225,7 +252,12 @@ func c05Unmarshal(c *run.Ctx, m *mon.Meter, kind string, t int, body []byte) {
 	m.Stop()
 	c.Eval(1)
 	c.Distinct(run.HashBytes(uint64(100+t), body), len(body) > 0)
-	c05Judge(c, m, api, T, kind, L, body)
+	c05Judge(c, m, api, T, kind, L, body, func() {
+		q := bind.Zero(t)
+		m.Start()
+		mon.Guard(func() { q.UnmarshalBinary(body) })
+		m.Stop()
+	})
 	if pan == nil {
 		// also on error the receiver has been filled: its lists are bounded too
 		c05Lists(c, api, T, kind, p, len(body), body)
